@@ -49,3 +49,4 @@
             (KActB (RequestContext_ServiceName c) p (wrap_i64 (+ h (RequestContext_Timeout c))) rid) (idVal rid))
             (KActID rid) (idVal rid)))))
      :pattern ((issueIt r t h id c cnt ps n)))))
+
